@@ -500,6 +500,12 @@ class C04(Check):
             n += 1
             if ok and n % 7 == 0:
                 jobs.append(line_job(S.with_splits(sp), ['recurrence'], e2=2, max_depth=1500))
+        # other horizons, in particular horizons that coincide with the first event (inclusive end of the run)
+        for hz in (1, 2, 0):
+            for sp, ok in S.ser_family(n_max=1, budgets=(None,), horizon=hz):
+                if ok:
+                    sp['name'] += f'@h{hz}'
+                    jobs.append(line_job(sp, ['recurrence'], e2=2, max_depth=1500))
         for ex in (S.EX_SINGLE_PROCESSOR(), S.EX_BUFFER()):
             for pol in ('first', 'last'):
                 jobs.append(conformance_job(ex, ['recurrence', 'examplecount'], pol))
